@@ -388,7 +388,9 @@ class Item:
                 if k in self.pins and k not in getattr(self, "_pinned", set()):
                     self.__dict__.setdefault("_pinned", set()).add(k)
                     pv = self.pins[k]
-                    if z3.is_bool(v):
+                    if z3.is_fp(v):
+                        self.assumptions.append(v == z3.FPVal(float.fromhex(pv[3:]), v.sort()))
+                    elif z3.is_bool(v):
                         self.assumptions.append(v == bool(pv))
                     elif z3.is_real(v):
                         self.assumptions.append(v == z3.RealVal(str(pv)))
@@ -444,6 +446,9 @@ class Item:
                 out[k] = e.as_long()
             elif z3.is_true(e) or z3.is_false(e):
                 out[k] = z3.is_true(e)
+            elif z3.is_fp(e):
+                from . import fp as _fp
+                out[k] = "fp:" + _fp.fp_value(model, v).hex()
             else:
                 out[k] = str(frac_of_z3(e))
         return out
@@ -626,7 +631,7 @@ def decide(item, label, fn_sym, call_real, conc_inputs, post, maxpaths=20000, cm
     if not paths:
         raise HarnessError("%s/%s: no feasible path" % (item.name, label))
     for p in paths:
-        if validate:
+        if validate(p) if callable(validate) else validate:
             item.validate(p, call_real, conc_inputs, cmp)
         kind, val = p.kind, p.value
         claim = _call_post(post, kind, type(val).__name__ if kind == "exc" else val, PostCtx(None, p))
